@@ -136,6 +136,9 @@ type rsMemberRun struct {
 	wasLd bool
 	seenP uint64
 	seenC uint64
+	// killedAsLeader: this member was killed while it was the leader (whatever it had written
+	// last may have reached nobody)
+	killedAsLeader bool
 }
 
 func runReplset(w *World) {
@@ -381,6 +384,9 @@ func runReplset(w *World) {
 					if m == nil || !live(m) {
 						return
 					}
+					if m.node.sl != nil && m.node.sl.state == STATE_LEADER {
+						m.killedAsLeader = true
+					}
 					w.kill(m.node.id)
 					w.fault(f.Kind)
 					sleep(time.Duration(f.DownMs) * time.Millisecond)
@@ -511,7 +517,12 @@ func runReplset(w *World) {
 						}
 					}
 				}
-				if !held {
+				if !held && l.killedAsLeader {
+					// a leader that was killed comes back with the unreplicated tail of its own log: by
+					// file index and offset that log is the longest, so it wins the next election
+					// although it belongs to an abandoned history (finding F68)
+					w.violate("C12", "quorum_acked_lock_lost_to_returned_leader", "lock %s was answered SUCCED after a quorum had acknowledged it, was never released and its term has not passed, but the leader %s (node n%d), a member that was killed while it was the leader and has been elected again, does not hold it", r, l.host, l.node.id)
+				} else if !held {
 					w.violate("C12", "quorum_acked_lock_lost", "lock %s was answered SUCCED after a quorum had acknowledged it, was never released and its term has not passed, but the leader %s (node n%d) does not hold it", r, l.host, l.node.id)
 					return
 				}
